@@ -6,7 +6,7 @@
    to that of its variants (declaration order, shellQuote without the requirement, null inputs):
    they guard the transcription, the verdict on StreamFlow comes from the harness.               *)
 EXTENDS CWLBinding
-CONSTANTS Families,      \* subset of {"single", "noshellq", "order", "shell", "streams", "quirk", "seed"}
+CONSTANTS Families,      \* subset of {"single", "noshellq", "order", "shell", "streams", "quirk", "jobs", "seed"}
           MaxGrow        \* how many Next steps may add elements (0 in exhaustive configs)
 
 Tool0 == [shell |-> FALSE, args |-> <<>>, inputs |-> <<>>, stdin |-> "", stdout |-> "", stderr |-> "", env |-> <<>>]
@@ -17,6 +17,7 @@ ArgExpr(ref) == [kind |-> "expr", sem |-> "", ref |-> ref, b |-> NoB]
 ArgRec(b) == [kind |-> "rec", sem |-> "", ref |-> "", b |-> b]
 EnvLit(name, sem) == [name |-> name, kind |-> "lit", sem |-> sem, ref |-> ""]
 EnvRef(name, ref) == [name |-> name, kind |-> "ref", sem |-> "", ref |-> ref]
+EnvRt(name, which) == [name |-> name, kind |-> "rt", sem |-> "", ref |-> which]
 
 -----------------------------------------------------------------------------
 (* value shapes over a set S of content classes *)
@@ -118,6 +119,74 @@ FamStreams ==
         env \in {<<>>, <<EnvLit("SFV_1", "any")>>, <<EnvRef("SFV_1", "a")>>, <<EnvLit("SFV_1", "any"), EnvRef("SFV_2", "a")>>},
         as \in {<<>>}, fb \in {NoB, Bnd(1, "any", "default", "", "default")}}
 
+-----------------------------------------------------------------------------
+(* "jobs": STEPS -- one tool description executed for 2..3 jobs (CWLBinding "Steps").  The jobs differ in the
+   VALUES of the inputs, and wherever the declared type allows it in their SHAPE (null / non-null, true /
+   false, arrays of 0 / 1 / 2 items), so that anything carried over from an earlier job of the step
+   (environment, evaluated expressions, bound tokens, redirection targets) shows in a later one.  All
+   ordered pairs of alternatives are enumerated, and the triples whose neighbours differ.            *)
+RtEnv == <<EnvRt("SFV_O", "outdir"), EnvRt("SFV_T", "tmpdir")>>
+Step(t, more) == [tool |-> t, more |-> more]
+\* what one input of the declared shape may hold in the different jobs of a step
+Alts(sh) == CASE sh.ty = "string" /\ sh.opt -> {Null, Str("any")}
+              [] sh.ty = "boolean" -> {BoolV(TRUE), BoolV(FALSE)}
+              [] sh.ty = "string[]" -> {Arr(<<>>), Arr(<<Str("any")>>), Arr(<<Str("any"), Str("any")>>)}
+              [] OTHER -> {sh.val}
+JobSeqs(A) == {<<x, y>> : x, y \in A}
+              \cup {s \in {<<x, y, z>> : x, y, z \in A} : Cardinality(A) > 1 => (s[1] # s[2] /\ s[2] # s[3])}
+\* a step from a sequence js of 2..3 valuations (one value per declared input) of tool t
+StepOf(t, js) == Step(WithVals(t, js[1]), Tail(js))
+
+JobShapes == {Sh("string", FALSE, Str("any"), NoB), Sh("string", TRUE, Null, NoB), Sh("boolean", FALSE, BoolV(TRUE), NoB),
+              Sh("int", FALSE, IntV, NoB), Sh("File", FALSE, FileV("any"), NoB), Sh("string[]", FALSE, Arr(<<>>), NoB),
+              Sh("string[]", FALSE, Arr(<<>>), Bnd(0, "any", "default", "", "default"))}
+JobBindings == {NoB, Bnd(0, "", "default", "", "default"), Bnd(0, "any", "default", "", "default"),
+                Bnd(0, "any", "false", "", "default"), WithSelf(Bnd(0, "any", "default", "", "default")),
+                Bnd(0, "any", "default", "any", "default")}
+\* one input, every shape alternation x the main binding options; the tool also publishes its runtime directories
+FamJobsSingle ==
+    UNION {{StepOf([Tool0 EXCEPT !.env = RtEnv, !.inputs = <<In("a", sh, b)>>], [j \in 1..Len(vs) |-> <<vs[j]>>]) :
+               b \in JobBindings, vs \in JobSeqs(Alts(sh))} : sh \in JobShapes}
+FamJobsSingleOK ==
+    {r \in FamJobsSingle : LET f == r.tool.inputs[1]
+                           IN /\ (f.b.has \/ f.ib.has)                                \* something is bound
+                              /\ (f.ty = "boolean" => f.b.prefix # "")                  \* (a flag without prefix adds nothing)
+                              /\ (f.b.isep # "" => (f.ty = "string[]" /\ ~f.ib.has))}   \* (itemSeparator + item binding: a listed quirk)
+\* redirections and the environment: stdin comes from the job's own File, the captured streams and every
+\* EnvVarRequirement value (literal, $(inputs.a), $(runtime.*)) are the job's own
+FamJobsStreams ==
+    {Step([Tool0 EXCEPT !.shell = sh, !.stdin = si, !.stdout = so, !.stderr = so, !.env = env,
+                        !.inputs = <<Simple("a", 0, ""), In("f", Sh("File", FALSE, FileV("any"), NoB), NoB)>>],
+          [j \in 1..n |-> <<Str("any"), FileV("any")>>]) :
+        sh \in BOOLEAN, si \in {"", "f"}, so \in {"", "any"}, n \in 1..2,
+        env \in {<<>>, RtEnv, <<EnvRef("SFV_1", "a")>>, RtEnv \o <<EnvLit("SFV_1", "any"), EnvRef("SFV_2", "a")>>}}
+\* arguments are evaluated per job: $(inputs.a) where a is null in some jobs, a flag that flips
+JobArgSets == {<<ArgExpr("a")>>, <<ArgExpr("a"), ArgRec(WithRef(Bnd(-1, "any", "false", "", "default"), "a"))>>,
+               <<ArgStr("any"), ArgRec(WithRef(Bnd(1, "any", "default", "", "default"), "a"))>>}
+FamJobsArgs ==
+    UNION {{StepOf([Tool0 EXCEPT !.args = as, !.inputs = <<In("a", sh, b), Simple("b", 2, "any")>>],
+                   [j \in 1..Len(vs) |-> <<vs[j], Str("any")>>]) :
+               b \in {NoB, Bnd(1, "any", "default", "", "default")}, as \in JobArgSets, vs \in JobSeqs(Alts(sh))} :
+           sh \in {Sh("string", TRUE, Null, NoB), Sh("boolean", FALSE, BoolV(TRUE), NoB)}}
+\* three inputs of different types change together; positions decide the order in every job
+JobRows == {<<Str("any"), BoolV(TRUE), Arr(<<Str("any"), Str("any")>>)>>, <<Null, BoolV(FALSE), Arr(<<>>)>>,
+            <<Str("any"), BoolV(FALSE), Arr(<<Str("any")>>)>>, <<Null, BoolV(TRUE), Arr(<<Str("any"), Str("any")>>)>>}
+FamJobsMulti ==
+    {StepOf([Tool0 EXCEPT !.env = env,
+                          !.inputs = <<In("a", Sh("string", TRUE, Null, NoB), Bnd(1, "", "default", "", "default")),
+                                       In("b", Sh("boolean", FALSE, BoolV(TRUE), NoB), Bnd(0, "any", "default", "", "default")),
+                                       In("c", Sh("string[]", FALSE, Arr(<<>>), NoB), Bnd(2, "any", "default", "any", "default"))>>], js) :
+        js \in JobSeqs(JobRows), env \in {<<>>, RtEnv \o <<EnvLit("SFV_1", "any")>>}}
+\* ShellCommandRequirement: the unquoted word of every job is lexed on its own
+FamJobsShell ==
+    {Step([Tool0 EXCEPT !.shell = TRUE, !.env = RefEnv,
+                        !.inputs = <<In("a", Sh("string", FALSE, Str(s1), NoB), b), Simple("b", 1, "")>>],
+          << <<Str(s2), Str("any")>> >>) : s1 \in ShellSems, s2 \in ShellSems, b \in ShB}
+FamJobsShellOK == {r \in FamJobsShell : r.more[1][1] # r.tool.inputs[1].val}
+FamJobs == [single |-> FamJobsSingleOK, streams |-> FamJobsStreams, args |-> FamJobsArgs, multi |-> FamJobsMulti,
+            shell |-> FamJobsShellOK]
+AllJobs == UNION {FamJobs[k] : k \in DOMAIN FamJobs}
+
 \* "seed": the tools the random walk starts from
 FamSeed == {[Tool0 EXCEPT !.shell = sh] : sh \in BOOLEAN}
 
@@ -130,10 +199,14 @@ Tools == (IF "single" \in Families THEN FamSingleOK ELSE {})
          \cup (IF "seed" \in Families THEN FamSeed ELSE {})
 
 -----------------------------------------------------------------------------
-VARIABLES tool, grown
-vars == <<tool, grown>>
+VARIABLES tool,     \* the tool description (with the input values of the first -- usually the only -- job)
+          more,     \* the input values of the later jobs of the step (<<>>: the tool runs once)
+          grown
+vars == <<tool, more, grown>>
 
-Init == tool \in Tools /\ grown = 0
+Init == /\ grown = 0
+        /\ \/ tool \in Tools /\ more = <<>>
+           \/ "jobs" \in Families /\ \E r \in AllJobs : tool = r.tool /\ more = r.more
 
 (* growing a tool (simulation): add one more bound input or argument drawn from the option space *)
 FreeNames == {NameOrder[i] : i \in 1..Len(NameOrder)} \ {tool.inputs[k].name : k \in 1..Len(tool.inputs)}
@@ -166,6 +239,7 @@ Next == /\ grown < MaxGrow
         /\ grown' = grown + 1
         /\ (AddInput \/ AddArg \/ AddStream)
         /\ WellFormed(tool')
+        /\ UNCHANGED more
 
 Spec == Init /\ [][Next]_vars
 
@@ -196,4 +270,16 @@ InvSorted == LET s == Sorted(tool) IN \A i, j \in 1..Len(s) : i < j => KeyLess(s
 
 \* every word of a quoted leaf arrives as ONE argument
 InvOwners == Len(Owners(tool)) = Len(Argv(tool))
+
+(* Steps *)
+InvStepWellFormed == StepWellFormed(tool, more)
+\* a job's expectation is that of the job alone: the other jobs of the step (their values, their number, their
+\* order) do not occur in it
+InvJobAlone == \A j \in 1..NJobs(more) : ExpectedJob(tool, more, j) = ExpectedJob(JobTool(tool, more, j), <<>>, 1)
+InvJobsSorted == \A n \in 1..NJobs(more) : LET s == Sorted(JobTool(tool, more, n))
+                                            IN \A i, j \in 1..Len(s) : i < j => KeyLess(s[i].key, s[j].key)
+\* the runtime environment is always expected, and is the job's own
+InvRuntimeEnv == \A j \in 1..NJobs(more) :
+                    LET e == ExpectedJob(tool, more, j)
+                    IN e.cwd = ARt("outdir") /\ Len(e.rtenv) = 2 /\ e.rtenv[1].text = <<e.cwd>>
 =============================================================================
